@@ -42,7 +42,8 @@ LEVEL_TEXT = (
     "reference output (or error class): quick = all chains of length <= 2 over two member names (6 kinds each, "
     "nesting), length 3 with the second name restricted to 4 kinds, x 3 body-chaining choices per non-leaf level, "
     "length 4 over one member name, plus the page-argument / anonymous block / attribute / dynamic-inherit grids up "
-    "to length 3-4; thorough = length <= 3 over two full member names, length 4 over two (uniform chaining), length "
+    "to length 3-4, inherit targets read from self.attr (length <= 4) and targets that evaluate to None at any "
+    "non-last level (length <= 3); thorough = length <= 3 over two full member names, length 4 over two (uniform chaining), length "
     "4-5 over one, the other grids one level longer. Complete within those bounds; no sampling."
 )
 LEVEL_NOTE = (
@@ -52,6 +53,8 @@ LEVEL_NOTE = (
 )
 ASSUMPTIONS = [
     "`next` in the most-derived template and `parent` in the base-most one are not defined by the statement: never generated",
+    "a dynamic inherit target that evaluates to None means 'no parent' at any level (Mako's behaviour for the rendered template, test_inheritance.test_dynamic; the statement's 'base-most ancestor' is then that level); templates behind it are never reached",
+    "an inherit target read from context['self'].attr.X sees the levels attached so far, so X is declared at the same or a more-derived level; X declared further toward the base is not generated",
     "an unresolvable member is an AttributeError (documented: hasattr/getattr on namespaces); the probes P/A catch exactly that",
     "a reference evaluation that nests more render callables than the program has (members + bodies) repeats one of them and, callables being stateless, never ends; Mako must then raise RecursionError (the interpreter limit is lowered, during the render only, to current depth + 8 frames per callable + 40)",
     "a top-level def and a block of one name in one template must be a CompileException (documented with the uniqueness rule); a nested def of that name: CompileException or acceptance both allowed",
@@ -66,6 +69,8 @@ BOUNDS = {
         "B": "L=4, one member name x 6 kinds, same chaining",
         "C": "L<=3, member {absent,def,block} x page args x anonymous blocks x chaining {none,next,self,next(z=),self(z=)}",
         "D": "L<=4, member {absent,def} x module attribute x static/dynamic inherit x chaining {none,next}",
+        "E": "L=2..4, module attribute x inherit target {static, context['upN'], context['self'].attr.<layN> declared at any level 0..i} x chaining {none,next}; every level declares an attribute of its own, read through self.attr and local.attr in every body",
+        "F": "L=2..3, member {absent,def,block} x inherit target {static, context['upN'], context.get('upN') absent, bound to None} at every non-last level x chaining {none,next,self}",
         "errors": "11 positions: singles, ordered pairs x same/different name, block-in-block, def+block, anonymous pairs (one line / own lines); standalone, as base of a 2-chain, and as base whose leaf overrides the block",
     },
     "thorough": {
@@ -73,6 +78,8 @@ BOUNDS = {
         "B": "L=4 and L=5, one member name, full chaining",
         "C": "L<=4",
         "D": "L<=5",
+        "E": "L<=5",
+        "F": "L<=4",
         "errors": "as quick",
     },
 }
@@ -419,7 +426,7 @@ def corpus(limit=400):
             yield {"files": ir.print_program(prog), "main": prog["main"], "ctx": dict(prog["ctx"]), "expected": exp[1] if exp[0] == "out" else None, "template_kwargs": {}}
 
     for g in ir.grids("quick"):
-        if g[1] in (2, 3) and g[0] in ("A", "C", "D"):
+        if g[1] in (2, 3) and g[0] in ("A", "C", "D", "E", "F"):
             n = ir.grid_size(g)
             streams.append(chain_stream(g, max(1, n // 97) | 1))  # odd stride: spread over all option positions
 
